@@ -3,7 +3,7 @@
 spec/query/Tail.tla specifies delivery (every line at or above the cursor is delivered exactly once; exactly the lines stored
 below the cursor are lost - the named limit of the design), frames (one well-formed JSON document each) and life cycle (every
 goroutine of the request ends once the client is gone; after a database error the handler ends the connection) with one action
-per step of the code, and names the places where the code as written departs from it (Dev).
+per step of the code, and names the places where the code as written departs from it (switches Dev).
   1. MC_Tail: exhaustive TLC runs - Dev = {} satisfies every invariant and liveness property; with the as-coded switches the
      cursor / life-cycle properties still hold, and each switch breaks the property it is named for (not vacuous).
   2. MC_TailSched: TLC simulation generates schedules (lines stored between ticks with old / equal / new / future timestamps,
@@ -11,8 +11,9 @@ per step of the code, and names the places where the code as written departs fro
      each switch.
   3. harness/cmd/x01 replays every schedule against the REAL reader router (httptest.Server + real websocket client + real
      writer -> store -> chsql) in a child process and records a totally ordered event trace and a goroutine census.
-  4. Trace_Tail: every recorded run must be a behaviour of Tail.tla with Dev = {}. A run that only the as-coded switches explain
-     is a violation named after the smallest such set; a run nothing explains is a conformance violation.
+  4. Trace_Tail: every recorded run must be a behaviour of Tail.tla with no as-coded branch taken. TLC explains the runs with
+     Mixed = TRUE (both branches allowed at every switch, ghost `used`): a run that needs as-coded branches is a violation named
+     after the smallest set of them; a run nothing explains is a conformance violation.
 """
 import concurrent.futures as cf
 import json
@@ -27,7 +28,7 @@ import vlib
 
 PID = 'X01'
 SPECDIR = os.path.join(vlib.SPEC, 'query')
-ALLDEV = ['spin_on_closed', 'err_frame', 'row_err_unnoticed', 'silent_refusal', 'cursor_stuck']
+ALLDEV = ['spin_on_closed', 'err_frame', 'row_err_unnoticed', 'cursor_stuck', 'silent_refusal']
 FAULTS = ['version', 'query', 'row', 'scan']
 
 DEV_TEXT = {
@@ -44,10 +45,9 @@ DEV_TEXT = {
     'silent_refusal': 'an empty or unparsable `query` is answered with status 200 and an empty body (the handler only logs and returns)',
 }
 
-INV_SPEC = ('TypeOK NoDuplicate DueDelivered FutureNotSkipped OldNeverDelivered OnlyStoredLines NoBadFrame '
-            'ServiceStopsAfterHandler DrainerOnlyAfterHandler ClosedOnlyByService RefusedStartsNothing')
-INV_ASCODED = ('TypeOK FutureNotSkipped OldNeverDelivered OnlyStoredLines '
-               'ServiceStopsAfterHandler DrainerOnlyAfterHandler ClosedOnlyByService RefusedStartsNothing')
+INV_ANY = ('TypeOK FutureNotSkipped OldNeverDelivered OnlyStoredLines '
+           'ServiceStopsAfterHandler DrainerOnlyAfterHandler ClosedOnlyByService RefusedStartsNothing')
+INV_SPEC = INV_ANY + ' NoDuplicate DueDelivered NoBadFrame RefusalIsAnError NothingAsCoded'
 LIVE = 'NoFrameAfterReturn Termination SenderNeverStuck ClosedEndsHandler EventuallyDelivered'
 LIVE_ASCODED = 'NoFrameAfterReturn Termination SenderNeverStuck'
 
@@ -56,6 +56,7 @@ CONSTANTS
   Lines = {%(lines)s}
   MaxT = %(maxt)d
   Dev = {%(dev)s}
+  Mixed = FALSE
   Faults = {"version", "query", "row", "scan"}
   MaxStale = 1
   MaxWire = %(wire)d
@@ -70,6 +71,7 @@ CONSTANTS
   Lines = {%(lines)s}
   MaxT = %(maxt)d
   Dev = {%(dev)s}
+  Mixed = FALSE
   Faults = {%(faults)s}
   MaxStale = 1
   MaxWire = 2
@@ -87,12 +89,12 @@ CONSTANTS
   Lines = {%(lines)s}
   MaxT = %(maxt)d
   Dev = {%(dev)s}
+  Mixed = TRUE
   Faults = {"version", "query", "row", "scan"}
   MaxStale = 3
   MaxWire = 6
 INVARIANTS %(inv)s
-CONSTRAINT Accept
-%%(diag)s
+CONSTRAINT HighWaterPrint
 CHECK_DEADLOCK FALSE
 '''
 
@@ -107,13 +109,13 @@ def ints(n):
 
 # ---------------------------------------------------------------------------------------------------------------- model checking
 
-def mc_run(name, module, cfg_text, expect_violation=None, timeout=900, workers=None, extra=None):
+def mc_run(name, module, cfg_text, expect_violation=None, timeout=900, workers=None):
     """Run TLC on a generated cfg. Returns stats; raises Infra if the outcome is not the expected one."""
     sd = vlib.scratch('x01cfg')
     try:
         cfgp = os.path.join(sd, name + '.cfg')
         open(cfgp, 'w').write(cfg_text)
-        res = vlib.tlc(SPECDIR, module, name + '.cfg', timeout=timeout, copy_extra=[cfgp], workers=workers, extra=extra)
+        res = vlib.tlc(SPECDIR, module, name + '.cfg', timeout=timeout, copy_extra=[cfgp], workers=workers)
         try:
             out = res['out']
             st = {'name': name, 'distinct': res.get('distinct', 0), 'generated': res.get('generated', 0), 'wall_s': round(res['wall'], 1),
@@ -137,39 +139,43 @@ _SCHED = re.compile(r'/\\ sched = (<<.*?>>)\n(?:/\\|\n|$)', re.S)
 
 
 def last_sched(text):
-    ms = _SCHED.findall(text)
-    if not ms:
+    i = text.rfind('/\\ sched = ')
+    if i < 0:
         return None
-    return tlaparse.flat(tlaparse.parse_value(ms[-1]))
+    m = _SCHED.match(text, i)
+    if not m:
+        return None
+    return tlaparse.flat(tlaparse.parse_value(m.group(1)))
 
 
 def model_check(tier, pool):
     """Submit the TLC runs; returns list of futures."""
     big = tier == 'thorough'
+    allk = q(['ok', 'empty', 'noparse', 'noupgrade'])
     jobs = []
     # 1. the intended design: every invariant (exhaustive)
     jobs.append(pool.submit(mc_run, 'mc_spec_safety', 'MC_Tail.tla', CFG_MC % {
-        'lines': ints(3 if big else 2), 'maxt': 4 if big else 3, 'dev': '', 'wire': 2, 'kinds': q(['ok', 'empty', 'noparse', 'noupgrade']),
-        'inv': 'INVARIANTS ' + INV_SPEC, 'props': ''}, None, 3000 if big else 600, 6))
+        'lines': ints(3 if big else 2), 'maxt': 4 if big else 3, 'dev': '', 'wire': 2, 'kinds': allk,
+        'inv': 'INVARIANTS ' + INV_SPEC, 'props': ''}, None, 3000 if big else 600, 6 if big else 4))
     # 2. the intended design: liveness under fairness
     jobs.append(pool.submit(mc_run, 'mc_spec_liveness', 'MC_Tail.tla', CFG_MC % {
         'lines': ints(2 if big else 1), 'maxt': 3, 'dev': '', 'wire': 1, 'kinds': q(['ok', 'noupgrade'] + (['empty'] if big else [])),
-        'inv': '', 'props': 'PROPERTIES ' + LIVE}, None, 3000 if big else 600, 6))
+        'inv': '', 'props': 'PROPERTIES ' + LIVE}, None, 3000 if big else 600, 6 if big else 4))
     # 3. the code as written: cursor and life-cycle properties still hold
     jobs.append(pool.submit(mc_run, 'mc_ascoded_safety', 'MC_Tail.tla', CFG_MC % {
-        'lines': ints(2), 'maxt': 4 if big else 3, 'dev': q(ALLDEV), 'wire': 2, 'kinds': q(['ok', 'empty', 'noparse', 'noupgrade']),
-        'inv': 'INVARIANTS ' + INV_ASCODED, 'props': ''}, None, 3000 if big else 600, 6))
+        'lines': ints(2), 'maxt': 4 if big else 3, 'dev': q(ALLDEV), 'wire': 2, 'kinds': allk,
+        'inv': 'INVARIANTS ' + INV_ANY, 'props': ''}, None, 3000 if big else 600, 6 if big else 4))
     if big:
         jobs.append(pool.submit(mc_run, 'mc_ascoded_liveness', 'MC_Tail.tla', CFG_MC % {
             'lines': ints(1), 'maxt': 3, 'dev': q(ALLDEV), 'wire': 1, 'kinds': q(['ok', 'noupgrade']),
             'inv': '', 'props': 'PROPERTIES ' + LIVE_ASCODED}, None, 3000, 6))
     # 4. every switch breaks the property it is named for; the BFS counterexample is the shortest schedule that shows it
-    for dev, inv, faults in (('spin_on_closed', 'NoBadFrame', ['query']), ('spin_on_closed', 'NoBadFrame', ['version']),
-                             ('err_frame', 'NoBadFrame', ['scan']), ('row_err_unnoticed', 'DueDelivered', ['row']),
-                             ('cursor_stuck', 'NoDuplicate', [])):
+    for dev, inv, faults, kinds in (('spin_on_closed', 'NoBadFrame', ['query'], ['ok']), ('spin_on_closed', 'NoBadFrame', ['version'], ['ok']),
+                                    ('err_frame', 'NoBadFrame', ['scan'], ['ok']), ('row_err_unnoticed', 'DueDelivered', ['row'], ['ok']),
+                                    ('cursor_stuck', 'NoDuplicate', [], ['ok']), ('silent_refusal', 'RefusalIsAnError', [], ['empty'])):
         jobs.append(pool.submit(mc_run, 'cex_%s_%s' % (dev, (faults or ['none'])[0]), 'MC_TailSched.tla', CFG_SCHED % {
-            'lines': ints(2), 'maxt': 4, 'dev': q([dev]), 'faults': q(faults), 'kinds': q(['ok']), 'ticks': 3, 'leave': 99, 'spt': 2, 'mints': 2 if dev == 'cursor_stuck' else 0,
-            'inv': 'INVARIANTS ' + inv}, inv, 600, 2))
+            'lines': ints(2), 'maxt': 4, 'dev': q([dev]), 'faults': q(faults), 'kinds': q(kinds), 'ticks': 3, 'leave': 99, 'spt': 2,
+            'mints': 2 if dev == 'cursor_stuck' else 0, 'inv': 'INVARIANTS ' + inv}, inv, 600, 2))
     jobs.append(pool.submit(mc_run, 'cex_spin_liveness', 'MC_Tail.tla', CFG_MC % {
         'lines': ints(1), 'maxt': 2, 'dev': q(['spin_on_closed']), 'wire': 1, 'kinds': q(['ok']),
         'inv': '', 'props': 'PROPERTIES ClosedEndsHandler'}, '*', 600, 2))
@@ -184,7 +190,7 @@ def simulate(kinds, n, depth, seed, ticks, leave, lines=4, maxt=6):
         cfgp = os.path.join(sd, 'sim.cfg')
         open(cfgp, 'w').write(CFG_SCHED % {'lines': ints(lines), 'maxt': maxt, 'dev': q(ALLDEV), 'faults': q(FAULTS), 'kinds': q(kinds),
                                            'ticks': ticks, 'leave': leave, 'spt': 1, 'mints': 0, 'inv': ''})
-        res = vlib.tlc(SPECDIR, 'MC_TailSched.tla', 'sim.cfg', timeout=600, copy_extra=[cfgp], workers=4,
+        res = vlib.tlc(SPECDIR, 'MC_TailSched.tla', 'sim.cfg', timeout=600, copy_extra=[cfgp], workers=2,
                        simulate={'num': n, 'file': True}, depth=depth, seed=seed)
         try:
             scheds = []
@@ -290,9 +296,12 @@ def project(sched, sid, rnd, origin):
             merged[-1]['lines'] += s['lines']
         else:
             merged.append(s)
-    # boundary probe: a late line exactly 1 ns above / at the newest delivered timestamp
+    # boundary probes: a late line 1 or 2 ns above the newest delivered timestamp
+    seen_await = False
     for s in merged:
-        if s['op'] == 'store' and awaited > 0:
+        if s['op'] == 'await':
+            seen_await = True
+        if s['op'] == 'store' and seen_await:
             for ln in s['lines']:
                 r = rnd.random()
                 if ln.get('adj'):
@@ -372,62 +381,73 @@ def to_trace(events):
     return out, (max(ids) if ids else 1), len(rank) + 2
 
 
-def validate(trace, nlines, maxt, dev, sd, name):
-    tp = os.path.join(sd, name + '.ndjson')
-    with open(tp, 'w') as f:
-        for e in trace:
-            f.write(json.dumps(e) + '\n')
-    cfg = CFG_TRACE % {'lines': ints(nlines), 'maxt': maxt, 'dev': q(dev), 'inv': INV_SPEC if not dev else INV_ASCODED}
-    ok, detail, st = vlib.validate_trace(SPECDIR, 'Trace_Tail.tla', cfg, tp, timeout=600)
-    return ok, detail, st
-
-
-def explain(sc, trace, nlines, maxt, sd):
-    """Validate one recorded run. Returns dict(ok, dev, detail, states, runs)."""
-    name = 's' + sc['id']
-    runs = 1
-    ok, detail, st = validate(trace, nlines, maxt, [], sd, name)
-    states = st['states']
-    if ok:
-        return {'ok': True, 'dev': [], 'detail': {}, 'states': states, 'runs': runs}
-    first = detail
-    if detail.get('kind') == 'invariant' and detail.get('invariant') not in ('NoBadFrame', 'DueDelivered'):
-        return {'ok': False, 'dev': None, 'detail': detail, 'states': states, 'runs': runs}
-    guess = {'version': ['spin_on_closed'], 'query': ['spin_on_closed'], 'scan': ['err_frame', 'spin_on_closed'],
-             'row': ['row_err_unnoticed']}.get(sc['fault'], [])
-    if sc['req'] in ('empty', 'noparse'):
-        guess = ['silent_refusal']
-    if not guess and sc['req'] == 'ok':
-        guess = ['cursor_stuck']
-    tried = []
-    for cand in ([guess] if guess else []) + [ALLDEV]:
-        runs += 1
-        ok2, d2, st2 = validate(trace, nlines, maxt, cand, sd, name)
-        states += st2['states']
-        tried.append(cand)
-        if ok2:
-            dev = list(cand)
-            for d in list(dev):  # smallest explaining set
-                if len(dev) == 1:
+def explain_chunk(chunk, sd, name):
+    """chunk: list of (n, trace, nlines, maxt). One TLC run (Mixed = TRUE) explains as many runs as it can; a run nothing explains
+    ends the TLC run, the rest is submitted again. Returns ({n: verdict}, tlc states, tlc runs)."""
+    verdicts, states, nruns = {}, 0, 0
+    rest = list(chunk)
+    while rest:
+        d = os.path.join(sd, '%s_%d' % (name, nruns))
+        os.makedirs(d, exist_ok=True)
+        tp = os.path.join(d, 'trace.ndjson')
+        lines, owner, fb = [], [], 0
+        for (n, tr, nl, mt) in rest:
+            nf = sum(1 for e in tr if e['ev'] == 'Frame')
+            flood = any(e['ev'] == 'Flood' for e in tr)
+            for e in [{'ev': 'Reset', 'n': n, 'fb': fb, 'nf': nf, 'flood': flood}] + tr + [{'ev': 'End'}]:
+                lines.append(e)
+                owner.append(n)
+            fb += nf
+        with open(tp, 'w') as f:
+            for e in lines:
+                f.write(json.dumps(e) + '\n')
+        cfgp = os.path.join(d, 'Trace_Tail.cfg')
+        open(cfgp, 'w').write(CFG_TRACE % {'lines': ints(max(x[2] for x in rest)), 'maxt': max(x[3] for x in rest), 'dev': q(ALLDEV), 'inv': INV_ANY})
+        res = vlib.tlc(SPECDIR, 'Trace_Tail.tla', 'Trace_Tail.cfg', workers=1, timeout=900, copy_extra=[cfgp, tp])
+        nruns += 1
+        try:
+            out = res['out']
+            states += res.get('distinct', 0)
+            got = {}
+            for m in re.finditer(r'<<"SCN", (\d+), \{([^}]*)\}>>', out):
+                got.setdefault(int(m.group(1)), []).append(sorted(x.strip().strip('"') for x in m.group(2).split(',') if x.strip()))
+            hw = [int(x) for x in re.findall(r'<<"HW", (\d+)>>', out)]
+            hwl = max(hw) if hw else 1
+            inv = re.search(r'Invariant ([A-Za-z0-9_]+) is violated', out)
+            if not inv and 'Model checking completed. No error has been found' not in out:
+                raise vlib.Infra('unexpected TLC output in trace validation:\n' + out[-3000:])
+            done = 0
+            for (n, tr, nl, mt) in rest:
+                if n in got:
+                    best = min(got[n], key=lambda s: (len(s), s))
+                    verdicts[n] = {'ok': not best, 'dev': best, 'detail': {}}
+                    done += 1
+                else:
                     break
-                rest = [x for x in dev if x != d]
-                runs += 1
-                ok3, _, st3 = validate(trace, nlines, maxt, rest, sd, name)
-                states += st3['states']
-                if ok3:
-                    dev = rest
-            return {'ok': False, 'dev': sorted(dev), 'detail': first, 'states': states, 'runs': runs}
-        last = d2
-    return {'ok': False, 'dev': None, 'detail': first, 'detail_ascoded': last, 'states': states, 'runs': runs}
+            if done == len(rest):
+                break
+            n = rest[done][0]
+            if inv:
+                verdicts[n] = {'ok': False, 'dev': None, 'detail': {'kind': 'invariant', 'invariant': inv.group(1)}}
+            else:
+                ln = min(hwl, len(lines))
+                # the line TLC could not get past belongs to the first unexplained run, or the output is inconsistent
+                if owner[ln - 1] != n:
+                    raise vlib.Infra('trace validation: high-water line %d belongs to run %s, first unexplained run is %s' % (ln, owner[ln - 1], n))
+                verdicts[n] = {'ok': False, 'dev': None, 'detail': {'kind': 'rejected', 'line': ln, 'event': json.dumps(lines[ln - 1])}}
+            rest = rest[done + 1:]
+        finally:
+            vlib.tlc_cleanup(res)
+    return verdicts, states, nruns
 
 
 def line_classes(events):
-    """Position of every stored line at the first complete query after it became visible (the spec's cls), and whether it was framed."""
+    """Position of every stored line at the first query after it became visible (the spec's cls), and whether it was framed."""
     framed = set()
     for e in events:
         if e['ev'] == 'Frame' and e.get('kind') == 'ok':
             framed.update(e.get('ids') or [])
-    res = {'old': 0, 'due': 0, 'future': 0, 'old_framed': 0, 'due_framed': 0, 'future_framed': 0, 'never_queried': 0}
+    res = {'old': 0, 'due': 0, 'future': 0, 'old_framed': 0, 'due_framed': 0, 'future_framed': 0, 'never_queried': 0, 'faulted': 0}
     for i, e in enumerate(events):
         if e['ev'] != 'Store':
             continue
@@ -436,7 +456,7 @@ def line_classes(events):
             res['never_queried'] += 1
             continue
         if qn.get('fault', 'none') != 'none':
-            res['faulted'] = res.get('faulted', 0) + 1
+            res['faulted'] += 1
             continue
         c = 'old' if e['ts'] < qn['from'] else ('due' if e['ts'] < qn['to'] else 'future')
         res[c] += 1
@@ -453,20 +473,21 @@ def run(tier):
     rnd = random.Random(seed * 7919 + 11)
     binp = vlib.go_build('cmd/x01', 'x01')
     nscen = 36 if tier == 'quick' else 260
-    par = 40 if tier == 'quick' else 48
+    par = 44 if tier == 'quick' else 48
     sd = vlib.scratch('x01')
-    pool = cf.ThreadPoolExecutor(max_workers=10)
+    pool = cf.ThreadPoolExecutor(max_workers=24)
     try:
         marks = {}
         mcjobs = model_check(tier, pool)
         # ---- schedules from TLC
-        cands = []
-        sim_states = 0
-        sid = 0
-        for kinds, n, ticks, depth, leave in ((['ok'], 400 if tier == 'quick' else 3000, 4, 80, 3), (['ok'], 300 if tier == 'quick' else 2000, 4, 80, 2),
-                                              (['ok'], 200 if tier == 'quick' else 1500, 3, 50, 0),
-                                              (['empty', 'noparse', 'noupgrade'], 40, 2, 12, 0)):
-            scheds, gen = simulate(kinds, n, depth, seed * 31 + ticks + len(kinds) + 7 * leave, ticks, leave)
+        sims = []
+        for kinds, n, ticks, depth, leave in ((['ok'], 300 if tier == 'quick' else 3000, 4, 80, 3), (['ok'], 250 if tier == 'quick' else 2000, 4, 80, 2),
+                                              (['ok'], 150 if tier == 'quick' else 1500, 3, 50, 0),
+                                              (['empty', 'noparse', 'noupgrade'], 30, 2, 12, 0)):
+            sims.append(pool.submit(simulate, kinds, n, depth, seed * 31 + ticks + len(kinds) + 7 * leave, ticks, leave))
+        cands, sim_states, sid = [], 0, 0
+        for f in sims:
+            scheds, gen = f.result()
             sim_states += gen
             for s in scheds:
                 sid += 1
@@ -493,88 +514,77 @@ def run(tier):
                 raise vlib.Infra('x01 driver failed: ' + (r.stdout + r.stderr)[-3000:])
             return json.load(open(op))['runs']
 
+        def prepare(runs):
+            infra, work = [], []
+            for ru in runs:
+                sc, res = ru['scenario'], ru['result']
+                if res is None:
+                    infra.append(ru.get('crash', '?')[:1500])
+                    continue
+                if res.get('infra') or res.get('unsup') or res.get('store_err'):
+                    infra.append('scenario %s: %s' % (sc['id'], json.dumps([res.get('infra'), res.get('unsup'), res.get('store_err')])[:1500]))
+                    continue
+                tr, nl, mt = to_trace(res['events'])
+                work.append((sc, res, tr, nl, mt))
+            if infra:
+                raise vlib.Infra('%d scenario(s) could not be run: %s' % (len(infra), ' || '.join(infra[:3])))
+            return work
+
+        def submit(work, tagname, nchunks):
+            futs = []
+            for i in range(nchunks):
+                part = work[i::nchunks]
+                if part:
+                    futs.append(pool.submit(explain_chunk, [(int(w[0]['id']), w[2], w[3], w[4]) for w in part], sd, '%s%d' % (tagname, i)))
+            return futs
+
         for i, c in enumerate(chosen):
             c['id'] = str(i + 1)
         marks['schedules_s'] = round(time.time() - t0, 1)
-        drv = pool.submit(drive, chosen, 'sim')     # the real runs go on while TLC checks the models
-        # ---- wait for the model checking: the counterexample schedules are replayed too
-        mc = []
-        for j in mcjobs:
-            mc.append(j.result())
+        work = prepare(drive(chosen, 'sim'))        # the real runs go on while TLC checks the models
+        marks['replayed_s'] = round(time.time() - t0, 1)
+        vf = submit(work, 'v', 6 if tier == 'quick' else 12)
+        # ---- the model checking results: the counterexample schedules are replayed too
+        mc = [j.result() for j in mcjobs]
+        marks['model_checked_s'] = round(time.time() - t0, 1)
         cexs = []
         for st in mc:
             if st.get('sched'):
                 sc = project(st['sched'], 0, random.Random(1), 'counterexample:' + st['name'])
                 if sc is None:
                     raise vlib.Infra('cannot project the counterexample of ' + st['name'])
-                # the client stays: the deviation must be observable; then it closes
-                sc['steps'] = [s for s in sc['steps'] if s['op'] not in ('close', 'drop', 'reset', 'wait_eof')]
-                if sc['fault'] == 'version':
-                    sc['steps'].append({'op': 'sleep', 'ms': 1100})
-                else:
-                    sc['steps'].append({'op': 'await', 'n': sc['fault_at']})
-                sc['steps'] += [{'op': 'wait_eof', 'ms': 1500}, {'op': 'sleep', 'ms': 1200}, {'op': 'close'}]
+                if sc['req'] == 'ok':
+                    # the client stays so that the deviation can be observed; then it closes
+                    sc['steps'] = [s for s in sc['steps'] if s['op'] not in ('close', 'drop', 'reset', 'wait_eof')]
+                    if sc['fault'] == 'version':
+                        sc['steps'] += [{'op': 'sleep', 'ms': 1100}, {'op': 'wait_eof', 'ms': 1500}]
+                    elif sc['fault'] != 'none':
+                        sc['steps'] += [{'op': 'await', 'n': sc['fault_at']}, {'op': 'wait_eof', 'ms': 1500}]
+                    else:
+                        sc['steps'] += [{'op': 'await', 'n': sc['meta']['queries']}, {'op': 'sleep', 'ms': 200}]
+                    sc['steps'].append({'op': 'close'})
                 sc['id'] = str(len(chosen) + len(cexs) + 1)
                 cexs.append(sc)
-        marks['model_checked_s'] = round(time.time() - t0, 1)
-        runs = drive(cexs, 'cex') if cexs else []
-        runs = drv.result() + runs
-        marks['replayed_s'] = round(time.time() - t0, 1)
-        # ---- validate every recorded run
-        infra = []
-        work = []
-        for ru in runs:
-            sc, res = ru['scenario'], ru['result']
-            if res is None:
-                infra.append(ru.get('crash', '?')[:1500])
-                continue
-            if res.get('infra') or res.get('unsup') or res.get('store_err'):
-                infra.append('scenario %s: %s' % (sc['id'], json.dumps([res.get('infra'), res.get('unsup'), res.get('store_err')])[:1500]))
-                continue
-            tr, nl, mt = to_trace(res['events'])
-            work.append((sc, res, tr, nl, mt))
-        if infra:
-            raise vlib.Infra('%d scenario(s) could not be run: %s' % (len(infra), ' || '.join(infra[:3])))
-        # runs without a fault are expected to be plain behaviours of the specification: validated several to a TLC run
-        # ("Reset" between them); a batch that is refused is validated again run by run
-        def explain_batch(batch, bname):
-            if len(batch) > 1:
-                tr = []
-                for i, w in enumerate(batch):
-                    if i:
-                        tr.append({'ev': 'Reset'})
-                    tr += w[2]
-                ok, _, st = validate(tr, max(w[3] for w in batch), max(w[4] for w in batch), [], sd, bname)
-                if ok:
-                    share = st['states'] // len(batch)
-                    return [{'ok': True, 'dev': [], 'detail': {}, 'states': share, 'runs': 1 if i == 0 else 0} for i in range(len(batch))]
-            return [explain(w[0], w[2], w[3], w[4], sd) for w in batch]
-
-        clean = [w for w in work if w[0]['fault'] == 'none' and w[0]['req'] == 'ok']
-        other = [w for w in work if not (w[0]['fault'] == 'none' and w[0]['req'] == 'ok')]
-        bsize = 8
-        batches = [clean[i:i + bsize] for i in range(0, len(clean), bsize)] + [[w] for w in other]
-        bf = [(b, pool.submit(explain_batch, b, 'b%d' % i)) for i, b in enumerate(batches)]
-
-        class _Done:
-            def __init__(self, v):
-                self.v = v
-
-            def result(self):
-                return self.v
-        futs = []
-        for b, f in bf:
-            for w, v in zip(b, f.result()):
-                futs.append((w, _Done(v)))
+        work2 = prepare(drive(cexs, 'cex')) if cexs else []
+        marks['counterexamples_replayed_s'] = round(time.time() - t0, 1)
+        vf += submit(work2, 'c', 3)
+        verdicts, tstates, truns = {}, 0, 0
+        for f in vf:
+            v, s_, r_ = f.result()
+            verdicts.update(v)
+            tstates += s_
+            truns += r_
+        marks['validated_s'] = round(time.time() - t0, 1)
+        work += work2
         viols, seen = [], {}
-        stats = {'accepted': 0, 'explained_by_deviation': 0, 'unexplained': 0, 'tlc_trace_states': 0, 'tlc_trace_runs': 0, 'events': 0, 'frames': 0,
-                 'by_request': {}, 'by_fault': {}, 'by_leave': {}, 'census_ms_max': 0, 'line_classes': {}, 'refused_status': {},
+        stats = {'accepted': 0, 'explained_by_deviation': 0, 'unexplained': 0, 'tlc_trace_states': tstates, 'tlc_trace_runs': truns, 'events': 0, 'frames': 0,
+                 'by_request': {}, 'by_fault': {}, 'by_leave': {}, 'census_ms_max': 0, 'line_classes': {}, 'refused_status': {}, 'at_cursor_probes': 0,
                  'counterexamples_reproduced': [], 'counterexamples_not_reproduced': []}
         sample = None
-        for (sc, res, tr, nl, mt), fu in futs:
-            v = fu.result()
-            stats['tlc_trace_states'] += v['states']
-            stats['tlc_trace_runs'] += v['runs']
+        for (sc, res, tr, nl, mt) in work:
+            v = verdicts.get(int(sc['id']))
+            if v is None:
+                raise vlib.Infra('no verdict for scenario ' + sc['id'])
             stats['events'] += len(tr)
             stats['frames'] += res.get('frames', 0)
             stats['by_request'][sc['req']] = stats['by_request'].get(sc['req'], 0) + 1
@@ -582,6 +592,7 @@ def run(tier):
             lv = sc['meta']['leave']
             stats['by_leave'][lv] = stats['by_leave'].get(lv, 0) + 1
             stats['census_ms_max'] = max(stats['census_ms_max'], res.get('census_ms', -1))
+            stats['at_cursor_probes'] += sc['meta'].get('at_cursor', 0)
             for k_, n_ in line_classes(res['events']).items():
                 stats['line_classes'][k_] = stats['line_classes'].get(k_, 0) + n_
             for e in res['events']:
@@ -601,10 +612,9 @@ def run(tier):
                 if cex:
                     stats['counterexamples_reproduced'].append(sc['meta']['origin'])
                 sig = 'as-coded|' + '+'.join(v['dev'])
-                msg = ('the recorded run of the real tail is not a behaviour of Tail.tla; it is one when the deviation(s) %s are switched on: %s. '
-                       'Scenario: request %s, database fault %s at data query %d (cut %d), client %s; first event the specification refuses: %s'
-                       % (v['dev'], ' / '.join(DEV_TEXT[d] for d in v['dev']), sc['req'], sc['fault'], sc['fault_at'], sc['cut'], lv,
-                          json.dumps(v['detail'])[:300]))
+                msg = ('the recorded run of the real tail is not a behaviour of Tail.tla; it is one only if the as-coded branch(es) %s are taken: %s. '
+                       'Scenario: request %s, database fault %s at data query %d (cut %d), client %s'
+                       % (v['dev'], ' / '.join(DEV_TEXT[d] for d in v['dev']), sc['req'], sc['fault'], sc['fault_at'], sc['cut'], lv))
             else:
                 stats['unexplained'] += 1
                 d = v['detail']
@@ -620,7 +630,7 @@ def run(tier):
                     elif evname == 'Frame':
                         kd = re.search(r'"kind": ?"([a-z]+)"', d.get('event', ''))
                         sig += '|' + (kd.group(1) if kd else '?')
-                msg = ('the recorded run of the real tail is not a behaviour of Tail.tla, with or without the as-coded deviations: %s. '
+                msg = ('the recorded run of the real tail is not a behaviour of Tail.tla, with or without the as-coded branches: %s. '
                        'Scenario: request %s, database fault %s at data query %d, client %s'
                        % (json.dumps(d)[:500], sc['req'], sc['fault'], sc['fault_at'], lv))
             if sig not in seen:
@@ -630,25 +640,25 @@ def run(tier):
                                        'sql': res.get('sqls')})
                 seen[sig] = rp
             viols.append({'property': PID, 'signature': sig, 'msg': msg, 'replay': seen[sig]})
-        nontrivial = sum(1 for (sc, res, tr, nl, mt), _ in futs if sc['req'] == 'ok' and sc['meta']['queries'] >= 1)
-        if nontrivial < 10 or stats['line_classes'].get('old', 0) < 1 or stats['line_classes'].get('due_framed', 0) < 3:
-            raise vlib.Infra('vacuous run: %d scenarios with a data query, line classes %s' % (nontrivial, stats['line_classes']))
+        nontrivial = sum(1 for (sc, res, tr, nl, mt) in work if sc['req'] == 'ok' and sc['meta']['queries'] >= 1)
+        lc = stats['line_classes']
+        if nontrivial < 10 or lc.get('old', 0) < 1 or lc.get('due_framed', 0) < 3:
+            raise vlib.Infra('vacuous run: %d scenarios with a data query, line classes %s' % (nontrivial, lc))
         cov = {
-            'states': sum(s['distinct'] for s in mc) + stats['tlc_trace_states'],
+            'states': sum(s['distinct'] for s in mc) + tstates,
             'transitions': sum(s['generated'] for s in mc) + sim_states,
-            'traces_validated_against_impl': len(futs),
+            'traces_validated_against_impl': len(work),
             'samples': [sample or {'scenario': work[0][0], 'trace': work[0][2]}],
             'model_checking': [{k: v for k, v in s.items() if k != 'sched'} for s in mc],
-            'simulated_behaviours': len(cands), 'schedule_classes': nclasses, 'scenarios': len(futs), 'distinct_nontrivial': nontrivial,
+            'simulated_behaviours': len(cands), 'schedule_classes': nclasses, 'scenarios': len(work), 'distinct_nontrivial': nontrivial,
             'replay': stats,
             'design_limit': 'lines stored below the cursor (older than / equal to the newest delivered line, or older than the 5 min look-back) are '
                             'never delivered: %d such lines in this run, %d of them framed (must be 0); lines at or above the cursor: %d due '
                             '(%d framed), %d future (%d framed later)' % (
-                                stats['line_classes'].get('old', 0), stats['line_classes'].get('old_framed', 0),
-                                stats['line_classes'].get('due', 0), stats['line_classes'].get('due_framed', 0),
-                                stats['line_classes'].get('future', 0), stats['line_classes'].get('future_framed', 0)),
+                                lc.get('old', 0), lc.get('old_framed', 0), lc.get('due', 0), lc.get('due_framed', 0),
+                                lc.get('future', 0), lc.get('future_framed', 0)),
             'wall_s': round(time.time() - t0, 1), 'phases': marks,
-            'checker_cmd': 'tlc MC_Tail.tla (Dev={} invariants+liveness; as-coded); tlc -simulate MC_TailSched.tla -> cmd/x01 run -> tlc Trace_Tail.tla per run',
+            'checker_cmd': 'tlc MC_Tail.tla (Dev={} invariants+liveness; as-coded); tlc -simulate MC_TailSched.tla -> cmd/x01 run -> tlc Trace_Tail.tla (Mixed)',
         }
         return {'level': 'model_checking', 'coverage': cov, 'violations': viols,
                 'assumptions': [
